@@ -184,7 +184,9 @@ def _nearest(ctx, p, fn, b, bi, t, info):
                 if not good:
                     continue
                 # y is the running minimum: the same variable the step ratio divides by, and it is updated here
-                if dmin is not None and not (x <= dmin and (y <= dmin or y == dmin)):
+                # (component k of a tuple accumulator refers to itself through `rec.k`: carried, not a new origin)
+                yc = frozenset(m for m in y if not (m[0] == 'field' and m[1] and all(q[0] == 'rec' for q in m[1])))
+                if dmin is not None and not (x <= dmin and (yc <= dmin or yc == dmin)):
                     continue
                 okcmp = True
         if not okcmp:
@@ -199,6 +201,16 @@ def _nearest(ctx, p, fn, b, bi, t, info):
                     vt = fn.event_terms(e)
                     if vt and all(d[0] == 'call' and d[1] == DISTANCE for d in vt) and dmin is not None and vt <= dmin:
                         upd = True
+        if not upd and di < fn.nstmts(db):
+            # (index, minimum) updated as one tuple literal: the other component is the compared distance
+            st_ = fn.blocks[db]['stmts'][di]
+            cand = [st_] + [s2 for s2 in fn.blocks[db]['stmts'] if s2['k'] == 'assign' and s2['rv']['k'] == 'agg' and s2['rv'].get('agg') == 'tuple']
+            for s2 in cand:
+                if s2['k'] == 'assign' and s2['rv']['k'] == 'agg' and s2['rv'].get('agg') == 'tuple':
+                    for fo in s2['rv']['fields']:
+                        vt = fn.op_terms(fo, (db, di))
+                        if vt and all(d[0] == 'call' and d[1] == DISTANCE for d in vt) and dmin is not None and vt <= dmin:
+                            upd = True
         if not upd:
             probs.append('the running minimum is not updated together with the nearest index at %s' % fn.loc(db, di))
     if lo_seen is not None and lo_seen >= 1:
